@@ -111,6 +111,7 @@ func runC12(c *Ctx) {
 	c12Post(c)
 	c12IssueInstant(c)
 	c12Destinations(c)
+	c12Retained(c)
 }
 
 // ---------- net/url codec vs UrlEnc ----------
